@@ -15,7 +15,7 @@ RULE = ("Hypothesis-generated cases (constraint type, target over 1e-2..1e3, rea
         "(or a sample above the amplitude / PAPR limit). Distinct = (constraint, parameters, shape, family, seed, item).")
 ASSUMPTIONS = ["dimension 0 is the batch when the tensor has >1 dimensions and >1 rows (documented in the constraints); 1-D and (1,L) tensors are one item",
                "power clauses (b)-(e) apply to items with input power >= 1e-4 per the property ('inputs of non-negligible power'); float32 tolerance 1e-3 on power, 1e-4 on ratios",
-               "PAPR limit is demanded on the non-sparse family the property states (>= 1/4 of the samples within 20 dB of the peak) with relative slack 1e-4",
+               "PAPR limit is demanded on the non-sparse family the property states (>= 1/4 of the samples within 20 dB of the peak) on which it is attainable by clipping (N / #nonzero samples <= limit), with relative slack 1e-4",
                "factory composites: limits are upper limits; feasibility N.A^2 >= P and PAPR limit >= 1 is required of generated configurations",
                "per-antenna power is the mean squared magnitude over the dimensions after (batch, antenna), as documented; inputs have >= 3 dimensions"]
 CHK = "c08:check_case"
@@ -170,6 +170,14 @@ def nonsparse(a):
     return m.max() > 0 and np.mean(m >= 0.1 * m.max()) >= 0.25
 
 
+def attainable(a, limit):
+    """Clipping at level c gives PAPR(c) = c^2 / mean(min(|x|,c)^2), which decreases to N / #nonzero as c -> 0:
+    the limit is attainable by clipping iff N / #nonzero < limit (the property's stated domain)."""
+    m = np.abs(a).reshape(-1)
+    nz = int((m > 1e-9 * m.max()).sum())
+    return nz > 0 and m.size / nz <= limit * (1 - 1e-6)
+
+
 def check_peak(ctx, cell, case, x):
     import torch
     con = build(case)
@@ -203,6 +211,9 @@ def check_papr(ctx, cell, case, x):
     for i, (xi, oi) in enumerate(zip(items_of(x), items_of(o))):
         if not nonsparse(xi) or pw(xi, "average") < 1e-8:
             ctx.cls("papr_sparse_or_negligible_items_skipped")
+            continue
+        if not attainable(xi, case["target"]):
+            ctx.cls("papr_limit_unattainable_by_clipping_skipped")
             continue
         ctx.ev()
         if papr_of(xi) > case["target"]:
@@ -251,7 +262,7 @@ def check_factory(ctx, cell, case, x):
         if case.get("peak_amplitude") is not None:
             ctx.check(float(np.abs(oi).max()) <= case["peak_amplitude"] * (1 + 1e-4), "C08.i_factory_peak_amplitude", cell, icase, float(np.abs(oi).max()), case["peak_amplitude"],
                       "factory composite: amplitude limit exceeded", CHK)
-        if case.get("max_papr") is not None and nonsparse(xi):
+        if case.get("max_papr") is not None and nonsparse(xi) and attainable(xi, case["max_papr"]):
             ctx.check(papr_of(oi) <= case["max_papr"] * (1 + 1e-3), "C08.i_factory_papr", cell, icase, papr_of(oi), case["max_papr"], "factory composite: PAPR limit exceeded", CHK)
         if case.get("uniform_power") is not None:
             for a in range(oi.shape[0]):
